@@ -3,6 +3,7 @@ import itertools
 import json
 import random
 
+import bs4
 import soupsieve as sv
 from soupsieve import css_match as cm
 
@@ -54,6 +55,59 @@ def rfc4647(rng_, tag):
     return True
 
 
+def element_language(soup, el):
+    """The property's rule, read independently of the library: the nearest lang attribute (xml:lang for an element that is
+    not an HTML element, in a namespace-aware tree) on the element or an ancestor within the same document (an iframe's
+    content is a document of its own), otherwise the content-language <meta> pragma of that document when the tree is
+    HTML / XHTML, otherwise None."""
+    roots = [c for c in soup.contents if isinstance(c, bs4.Tag)] if isinstance(soup, bs4.BeautifulSoup) else [soup]
+    is_xml = bool(getattr(soup, '_is_xml', False))
+    root_html_ns = bool(roots) and roots[0].namespace == gen.XHTML
+    is_html = (not is_xml) or root_html_ns
+    has_ns = is_xml or root_html_ns
+
+    def html_el(e):
+        return is_html and (not has_ns or e.namespace == gen.XHTML)
+
+    def nm(e):
+        return e.name if is_xml else e.name.lower()
+    cur, last = el, el
+    while cur is not None:
+        if not isinstance(cur, bs4.BeautifulSoup):
+            own_html = cur.namespace == gen.XHTML
+            for k, v in cur.attrs.items():
+                kns, kname = getattr(k, 'namespace', None), getattr(k, 'name', None)
+                if (not has_ns or own_html) and (k if is_xml else k.lower()) == 'lang':
+                    return v
+                if has_ns and not own_html and kns == gen.XMLNS and kname is not None and (kname if is_xml else kname.lower()) == 'lang':
+                    return v
+        last = cur
+        par = cur.parent
+        if is_html and par is not None and not isinstance(par, bs4.BeautifulSoup) and nm(par) == 'iframe' and html_el(par):
+            break                       # the embedding document is another document
+        cur = par
+    if not is_html:
+        return None
+
+    def child(p, name):
+        return next((c for c in p.contents if isinstance(c, bs4.Tag) and nm(c) == name and html_el(c)), None)
+    html = last if (not isinstance(last, bs4.BeautifulSoup) and nm(last) == 'html' and html_el(last)) else child(last, 'html')
+    head = child(html, 'head') if html is not None else None
+    if head is None:
+        return None
+    for m in head.contents:
+        if isinstance(m, bs4.Tag) and nm(m) == 'meta':
+            decl, content = False, None
+            for k, v in m.attrs.items():
+                if k.lower() == 'http-equiv' and isinstance(v, str) and v.lower() == 'content-language':
+                    decl = True
+                if k.lower() == 'content':
+                    content = v
+                if decl and content:
+                    return content
+    return None
+
+
 def lang_docs(rng, n):
     cases = []
     langs = ['en', 'en-US', 'de', '', 'de-DE-1996', 'fr', 'de-Latn-DE', 'x-y']
@@ -69,6 +123,12 @@ def lang_docs(rng, n):
             if rng.random() < 0.15:
                 attrs.append(('xml:lang', rng.choice(langs)))
             kids = [('t', 'a')] if rng.random() < 0.3 else []
+            if d > 0 and kind != 'xml' and rng.random() < 0.2:
+                # an embedded document with its own (or no) language information
+                ih = [('lang', rng.choice(langs))] if rng.random() < 0.2 else []
+                imeta = [('e', 'meta', None, None, [('http-equiv', 'content-language'), ('content', rng.choice(langs))], [])] if rng.random() < 0.5 else []
+                inner = ('e', 'html', None, None, ih, [('e', 'head', None, None, [], imeta), ('e', 'body', None, None, [], [chain(d - 1)])])
+                kids.append(('e', 'iframe', None, None, [], [inner]))
             if d > 0:
                 kids.append(chain(d - 1))
                 if rng.random() < 0.4:
@@ -92,7 +152,8 @@ def lang_docs(rng, n):
         probe = gen.build_doc(kind, top)
         els = gen.elements(probe)
         qs = [('select', [], 0)] + [('match', enc.path_of(rng.choice(els)), 0) for _ in range(2)]
-        cases.append({'kind': kind, 'tree': top, 'selector': sel, 'queries': qs})
+        cases.append({'kind': kind, 'tree': top, 'selector': sel, 'queries': qs, 'lang_range_text': sel[sel.index(':lang(') + 6:-1],
+                      'prefix': sel[:sel.index(':lang(')]})
     # parser-built documents: html5lib (SVG/MathML under lang), lxml-xml (xml:lang as a namespaced attribute)
     for _ in range(max(20, n // 6)):
         l1, l2 = rng.choice(langs[:3] + ['de-CH', 'fr-CA']), rng.choice(langs[:3] + ['de-CH', 'fr-CA'])
@@ -152,6 +213,29 @@ def run(chk):
         for rec in matchcorr.run_cases(cases):
             if not rec['agree']:
                 doc_bad.append({'case': rec['case'], 'py': rec['py'], 'model': rec['lean']})
+    # the inherited-language rule itself, on the real code, against the independent reading above
+    rule_bad = []
+    for case in (cases if driver_ok else lang_docs(rng, 600 if quick else 20000)):
+        if 'lang_range_text' not in case:
+            continue
+        ranges_ = [r_.strip().strip('"') for r_ in case['lang_range_text'].split(',')]
+        if not all(r_ == '' or all(r_.split('-')) for r_ in ranges_):
+            continue
+        soup = matchcorr.materialise(case)
+        want = []
+        for e in gen.elements(soup):
+            if case['prefix'] and not sv.match(case['prefix'], e):
+                continue
+            lg = element_language(soup, e)
+            if lg is not None and isinstance(lg, str) and any(rfc4647(r_, lg) for r_ in ranges_):
+                want.append(enc.path_of(e))
+        got = [enc.path_of(e) for e in sv.select(case['selector'], soup)]
+        if got != want:
+            rule_bad.append({'case': {k: v for k, v in case.items() if k in ('kind', 'tree', 'selector')}, 'py': got, 'expected': want})
+    chk.coverage['inherited_language_rule_documents'] = sum(1 for c_ in cases if 'lang_range_text' in c_) if driver_ok else None
+    chk.coverage['inherited_language_rule_failures'] = len(rule_bad)
+    for i, bad in enumerate(rule_bad[:3]):
+        chk.violation(f'rule{i}', {'what': ':lang() differs from "nearest lang within the same document, else that document\'s content-language pragma, else unknown"', **bad}, concrete=True)
     chk.samples = [{'range': r, 'tag': t, 'py': g} for (r, t), g in list(zip(pairs, pyv))[:3]] + \
                   [{'range': r, 'tag': t, 'py': g} for (r, t), g in zip(pairs, pyv) if g][:4]
     chk.coverage.update({'pairs': len(pairs), 'pairs_matching': matches, 'exhaustive': not quick, 'max_subtags': k,
@@ -168,7 +252,7 @@ def run(chk):
     for i, bad in enumerate(model_bad[:3]):
         if not corr_bad:
             chk.violation(f'model{i}', {'what': 'Lean model differs from the RFC reference', 'theorem': 'SoupVerif.C13.filterCore_eq_rfc', **bad}, concrete=False)
-    if not proof_ok and not (py_bad or corr_bad or model_bad or doc_bad):
+    if not proof_ok and not (py_bad or corr_bad or model_bad or doc_bad or rule_bad):
         chk.violation('proof', {'what': 'proof obligation no longer checks; the pair sweep found no failing input',
                                 'theorem_or_correspondence': 'SoupVerif.Properties.C13', 'detail': chk.notes.get('proof_broken')}, concrete=False)
     return chk.finish(rule=RULE, evaluations=len(pairs) + ndocs, distinct=matches)
